@@ -73,7 +73,7 @@ def run(ctx):
             if (modname, q) in DIJKSTRA_SITES:
                 continue
             if pq_names(fn):
-                n_extra = dijkstra(ctx, modname, fn, item)
+                dijkstra(ctx, modname, fn, item)
     w1_weight_modes(ctx)
     b1_backtracking(ctx)
     r1_forwarding(ctx)
@@ -161,7 +161,6 @@ def e1_sentinel(ctx):
     def classify(n, via):
         """n: a Name node that holds the sentinel at this point."""
         p = au.parent(n)
-        label = S if via is None else f"{S} (through its alias {via})"
         if isinstance(p, ast.Subscript) and p.slice is n:
             r = _root(p.value)
             if local_dict_at(r, n):
@@ -276,9 +275,6 @@ class _Region:
         `lower`: atom -> Poly lower bound (loop variables)."""
         lower = dict(lower or {})
         # substitute i = lo + t (t >= 0), L = m + s (s >= 0): all coefficients of one sign => decided
-        env_sub = {}
-        expr = p
-        atoms_ = p.atoms()
         q = sym.Poly()
         for mono, coef in p.t.items():
             term = sym.Poly.const(coef)
@@ -629,7 +625,6 @@ def f1_build_path(ctx):
             s = R.sign(nv - 2)
             if s is None or s >= 0:
                 problems.append(("edges", f"for {R} no edge is emitted although the path has {nv} vertices"))
-        covered = sym.Poly()
         for e in st["edges"]:
             lp = e["loop"]
             d = e["b"] - e["a"]
